@@ -318,9 +318,9 @@ Lemma commit_entries_ver x ts e :
   txn_unver x -> In e (commit_entries x ts) -> e_ver e = ts.
 Proof.
   intros [Hp Hd]. unfold commit_entries. rewrite in_app_iff, !in_map_iff.
-  intros [(ke & <- & Hke)|(e0 & <- & He0)]; unfold stamp.
-  - rewrite (Hp _ Hke). reflexivity.
+  intros [(e0 & <- & He0)|(ke & <- & Hke)]; unfold stamp.
   - rewrite (Hd _ He0). reflexivity.
+  - rewrite (Hp _ Hke). reflexivity.
 Qed.
 
 (* ---- the invariant ---- *)
